@@ -96,6 +96,23 @@ func relayout(t *rapid.T, toks []lexref.Tok) (string, []string) {
 	}
 	lineStart := true
 	inImportGroup := false
+	// presence or absence of a final newline is layout: drop the trailing line breaks of the file, or add one
+	switch gen.Uniform(0, 3).Draw(t, "final-newline") {
+	case 0:
+		n := len(toks)
+		for n > 0 && toks[n-1].Type == lexer.NEWLINE {
+			n--
+		}
+		if n < len(toks) && n > 0 {
+			toks = toks[:n]
+			kinds["final-newline-dropped"] = true
+		}
+	case 1:
+		if len(toks) > 0 && toks[len(toks)-1].Type != lexer.NEWLINE {
+			toks = append(append([]lexref.Tok{}, toks...), lexref.Tok{Type: lexer.NEWLINE, Text: "\n", Value: "\n"})
+			kinds["final-newline-added"] = true
+		}
+	}
 	for i, tk := range toks {
 		if tk.Type == lexer.NEWLINE {
 			// trailing blanks / line comment before the line break
